@@ -23,7 +23,7 @@ namespace cc = cds::container;
 
 namespace {
 
-struct SCfg { int nthreads; int collision; };
+struct SCfg { int nthreads; int collision; int flip; };  // flip: which push overload odd/even values go through
 
 // deterministic "random" slot engine: the slot sequence is part of the configuration, not a random source
 struct engine_zero { typedef unsigned int result_type; unsigned int operator()() { return 0; } };
@@ -63,14 +63,18 @@ struct StackAdapter
     void apply( int t, History& h, POp const& op )
     {
         switch ( op.op ) {
-        case PUSH: { int i = h.call( t, PUSH, op.a ); bool ok = s->push( op.a ); h.ret( i, ok ); break; }
-        case POP: { int i = h.call( t, POP ); long v = -1; bool ok = s->pop( v ); h.ret( i, ok, ok ? v : 0 ); break; }
+        case PUSH: {
+            int i = h.call( t, PUSH, op.a ); Payload pl( op.a );
+            bool ok = (( op.a + cfg.flip ) & 1 ) ? s->push( pl ) : s->push( std::move( pl ));      // both overloads
+            h.ret( i, ok ); break;
+        }
+        case POP: { int i = h.call( t, POP ); Payload v; bool ok = s->pop( v ); h.ret( i, ok, ok ? v.read() : 0 ); break; }
         default: break;
         }
     }
     void drain( History& h )
     {
-        for ( int n = 0; n < 64; ++n ) { int i = h.call( -1, POP ); long v = -1; bool ok = s->pop( v ); h.ret( i, ok, ok ? v : 0 ); if ( !ok ) break; }
+        for ( int n = 0; n < 64; ++n ) { int i = h.call( -1, POP ); Payload v; bool ok = s->pop( v ); h.ret( i, ok, ok ? v.read() : 0 ); if ( !ok ) break; }
         int i = h.call( -1, EMPTY ); h.ret( i, s->empty());
     }
     long collisions = 0;
@@ -93,17 +97,17 @@ struct DequeAdapter
     void apply( int t, History& h, POp const& op )
     {
         switch ( op.op ) {
-        case PUSH_F: { int i = h.call( t, PUSH_F, op.a ); bool ok = d->push_front( op.a ); h.ret( i, ok ); break; }
-        case PUSH_B: { int i = h.call( t, PUSH_B, op.a ); bool ok = d->push_back( op.a ); h.ret( i, ok ); break; }
-        case POP_F: { int i = h.call( t, POP_F ); long v = -1; bool ok = d->pop_front( v ); h.ret( i, ok, ok ? v : 0 ); break; }
-        case POP_B: { int i = h.call( t, POP_B ); long v = -1; bool ok = d->pop_back( v ); h.ret( i, ok, ok ? v : 0 ); break; }
+        case PUSH_F: { int i = h.call( t, PUSH_F, op.a ); Payload pl( op.a ); bool ok = (( op.a + cfg.flip ) & 1 ) ? d->push_front( pl ) : d->push_front( std::move( pl )); h.ret( i, ok ); break; }
+        case PUSH_B: { int i = h.call( t, PUSH_B, op.a ); Payload pl( op.a ); bool ok = (( op.a + cfg.flip ) & 1 ) ? d->push_back( pl ) : d->push_back( std::move( pl )); h.ret( i, ok ); break; }
+        case POP_F: { int i = h.call( t, POP_F ); Payload v; bool ok = d->pop_front( v ); h.ret( i, ok, ok ? v.read() : 0 ); break; }
+        case POP_B: { int i = h.call( t, POP_B ); Payload v; bool ok = d->pop_back( v ); h.ret( i, ok, ok ? v.read() : 0 ); break; }
         default: break;
         }
     }
     void drain( History& h )
     {
         { int i = h.call( -1, SIZE ); h.ret( i, long( d->size())); }
-        for ( int n = 0; n < 64; ++n ) { int i = h.call( -1, POP_F ); long v = -1; bool ok = d->pop_front( v ); h.ret( i, ok, ok ? v : 0 ); if ( !ok ) break; }
+        for ( int n = 0; n < 64; ++n ) { int i = h.call( -1, POP_F ); Payload v; bool ok = d->pop_front( v ); h.ret( i, ok, ok ? v.read() : 0 ); if ( !ok ) break; }
         int i = h.call( -1, EMPTY ); h.ret( i, d->empty());
     }
     long collisions = 0;
@@ -116,8 +120,9 @@ struct DequeAdapter
 std::vector<Scenario> g_scen;
 
 template <class Adapter>
-void add_stack_family( std::string const& base, int collision, int step, int bq = 2, int bt = 3, int bq3 = 2, int bt3 = 2, int bqe = 2, int bte = 3 )
+void add_stack_family( std::string base, int collision, int step, int bq = 2, int bt = 3, int bq3 = 2, int bt3 = 2, int bqe = 2, int bte = 3, int flip = 0 )
 {
+    if ( flip ) base += "/flip";
     std::vector<POp> alpha = { { PUSH, 0, 0 }, { POP, 0, 0 } };
     std::vector<TProg> seqs = sequences( alpha, 2 );
     std::vector<TProg> prefixes = { {}, { { PUSH, 91, 0 } }, { { PUSH, 91, 0 }, { PUSH, 92, 0 } } };
@@ -125,29 +130,30 @@ void add_stack_family( std::string const& base, int collision, int step, int bq 
     for ( auto& p : progs ) { long v = 1; for ( auto& t : p.threads ) for ( auto& o : t ) if ( o.op == PUSH ) o.a = v++; }
     int n = 0;
     for ( auto const& p : progs )
-        g_scen.push_back( make_scenario<Adapter>( base, p, SCfg{ 2, collision }, ( n++ % step ) == 0 ? 0 : 1, bq, bt ));
+        g_scen.push_back( make_scenario<Adapter>( base, p, SCfg{ 2, collision, flip }, ( n++ % step ) == 0 ? 0 : 1, bq, bt ));
     std::vector<Program> cur;
     { Program p; p.name = "push-push-pop"; p.threads = { { { PUSH, 1, 0 } }, { { PUSH, 2, 0 } }, { { POP, 0, 0 }, { POP, 0, 0 } } }; cur.push_back( p ); }
     { Program p; p.name = "pop-pop-on-2"; p.prefix = { { PUSH, 91, 0 }, { PUSH, 92, 0 } }; p.threads = { { { POP, 0, 0 } }, { { POP, 0, 0 } }, { { PUSH, 1, 0 } } }; cur.push_back( p ); }
     // the classic ABA program: one popper is preempted while another pops two items and pushes the first one back
     { Program p; p.name = "aba"; p.prefix = { { PUSH, 91, 0 }, { PUSH, 92, 0 }, { PUSH, 93, 0 } }; p.threads = { { { POP, 0, 0 } }, { { POP, 0, 0 }, { POP, 0, 0 }, { PUSH, 1, 0 } } };
-      g_scen.push_back( make_scenario<Adapter>( base, p, SCfg{ 2, collision }, 0, bq, bt )); }
+      g_scen.push_back( make_scenario<Adapter>( base, p, SCfg{ 2, collision, flip }, 0, bq, bt )); }
     { Program p; p.name = "aba3"; p.prefix = { { PUSH, 91, 0 }, { PUSH, 92, 0 } }; p.threads = { { { POP, 0, 0 } }, { { POP, 0, 0 }, { PUSH, 1, 0 } }, { { POP, 0, 0 }, { PUSH, 2, 0 } } }; cur.push_back( p ); }
     for ( auto const& p : cur )
-        g_scen.push_back( make_scenario<Adapter>( base, p, SCfg{ 3, collision }, step == 1 ? 0 : 1, bq3, bt3 ));
+        g_scen.push_back( make_scenario<Adapter>( base, p, SCfg{ 3, collision, flip }, step == 1 ? 0 : 1, bq3, bt3 ));
     // elimination needs three threads: a pusher and a popper must both lose a CAS to a third thread before they can meet in the collision array
     { Program p; p.name = "elim-collide"; p.prefix = { { PUSH, 91, 0 } }; p.threads = { { { PUSH, 1, 0 } }, { { POP, 0, 0 } }, { { PUSH, 2, 0 }, { PUSH, 3, 0 } } };
-      g_scen.push_back( make_scenario<Adapter>( base, p, SCfg{ 3, collision }, 0, bqe, bte )); }
+      g_scen.push_back( make_scenario<Adapter>( base, p, SCfg{ 3, collision, flip }, 0, bqe, bte )); }
     { Program p; p.name = "elim-collide2"; p.prefix = { { PUSH, 91, 0 }, { PUSH, 92, 0 } }; p.threads = { { { POP, 0, 0 } }, { { PUSH, 1, 0 } }, { { POP, 0, 0 }, { PUSH, 2, 0 } } };
-      g_scen.push_back( make_scenario<Adapter>( base, p, SCfg{ 3, collision }, 0, bqe, bte )); }
+      g_scen.push_back( make_scenario<Adapter>( base, p, SCfg{ 3, collision, flip }, 0, bqe, bte )); }
     { Program p; p.name = "deep"; p.threads = { { { PUSH, 1, 0 }, { POP, 0, 0 }, { PUSH, 2, 0 } }, { { POP, 0, 0 }, { PUSH, 3, 0 }, { POP, 0, 0 } } };
-      g_scen.push_back( make_scenario<Adapter>( base, p, SCfg{ 2, collision }, 1, bq, bt )); }
+      g_scen.push_back( make_scenario<Adapter>( base, p, SCfg{ 2, collision, flip }, 1, bq, bt )); }
 }
 
 #if FAMILY == 3
 template <class Adapter>
-void add_deque_family( std::string const& base, int passes, int step, int bq, int bt )
+void add_deque_family( std::string base, int passes, int step, int bq, int bt, int flip = 0 )
 {
+    if ( flip ) base += "/flip";
     std::vector<POp> alpha = { { PUSH_F, 0, 0 }, { PUSH_B, 0, 0 }, { POP_F, 0, 0 }, { POP_B, 0, 0 } };
     std::vector<TProg> seqs = sequences( alpha, 1 );
     { std::vector<TProg> two = { { { PUSH_F, 0, 0 }, { POP_B, 0, 0 } }, { { PUSH_B, 0, 0 }, { POP_F, 0, 0 } }, { { POP_F, 0, 0 }, { PUSH_B, 0, 0 } }, { { POP_B, 0, 0 }, { POP_F, 0, 0 } }, { { PUSH_F, 0, 0 }, { PUSH_B, 0, 0 } } };
@@ -157,15 +163,15 @@ void add_deque_family( std::string const& base, int passes, int step, int bq, in
     for ( auto& p : progs ) { long v = 1; for ( auto& t : p.threads ) for ( auto& o : t ) if ( o.op == PUSH_F || o.op == PUSH_B ) o.a = v++; }
     int n = 0;
     for ( auto const& p : progs )
-        g_scen.push_back( make_scenario<Adapter>( base, p, SCfg{ 2, passes }, ( n++ % step ) == 0 ? 0 : 1, bq, bt ));
+        g_scen.push_back( make_scenario<Adapter>( base, p, SCfg{ 2, passes, flip }, ( n++ % step ) == 0 ? 0 : 1, bq, bt ));
     // 3 threads: a same-end pair plus a cross-end pop, on [] and [x]
     for ( int pre = 0; pre < 2; ++pre ) {
         Program p; p.name = "3t-cross" + std::to_string( pre ); if ( pre ) p.prefix = { { PUSH_B, 91, 0 } };
         p.threads = { { { PUSH_F, 1, 0 } }, { { POP_F, 0, 0 } }, { { POP_B, 0, 0 } } };
-        g_scen.push_back( make_scenario<Adapter>( base, p, SCfg{ 3, passes }, step == 1 ? 0 : 1, 1, 2 ));
+        g_scen.push_back( make_scenario<Adapter>( base, p, SCfg{ 3, passes, flip }, step == 1 ? 0 : 1, 1, 2 ));
         Program q; q.name = "3t-cross-b" + std::to_string( pre ); if ( pre ) q.prefix = { { PUSH_B, 91, 0 } };
         q.threads = { { { PUSH_B, 1, 0 } }, { { POP_B, 0, 0 } }, { { POP_F, 0, 0 } } };
-        g_scen.push_back( make_scenario<Adapter>( base, q, SCfg{ 3, passes }, step == 1 ? 0 : 1, 1, 2 ));
+        g_scen.push_back( make_scenario<Adapter>( base, q, SCfg{ 3, passes, flip }, step == 1 ? 0 : 1, 1, 2 ));
     }
 }
 #endif
@@ -209,36 +215,39 @@ int main( int argc, char** argv )
 
 #if FAMILY == 1
     {
-        typedef cc::TreiberStack<cds::gc::HP, long, tr_plain> ts_hp;
-        typedef cc::TreiberStack<cds::gc::DHP, long, tr_plain> ts_dhp;
+        typedef cc::TreiberStack<cds::gc::HP, Payload, tr_plain> ts_hp;
+        typedef cc::TreiberStack<cds::gc::DHP, Payload, tr_plain> ts_dhp;
         add_stack_family<StackAdapter<ts_hp, HpHolder<ts_hp::c_nHazardPtrCount + 1>>>( "Treiber/HP", 0, 1, 3, 4, 2, 3 );
-        add_stack_family<StackAdapter<ts_dhp, DhpHolder>>( "Treiber/DHP", 0, 2, 3, 4, 2, 3 );
+        add_stack_family<StackAdapter<ts_dhp, DhpHolder>>( "Treiber/DHP", 0, 2, 3, 4, 2, 3, 2, 3, 1 );
         add_stack_family<StackAdapter<ts_hp, HpHolder<ts_hp::c_nHazardPtrCount + 1, true>>>( "Treiber/HPclassic", 0, 3, 3, 4, 2, 3 );
     }
 #elif FAMILY == 2
     {
-        typedef cc::TreiberStack<cds::gc::HP, long, tr_elim1> ts_e1;
-        typedef cc::TreiberStack<cds::gc::DHP, long, tr_elim2> ts_e2;
-        typedef cc::TreiberStack<cds::gc::HP, long, tr_elim_dyn> ts_ed;
+        typedef cc::TreiberStack<cds::gc::HP, Payload, tr_elim1> ts_e1;
+        typedef cc::TreiberStack<cds::gc::DHP, Payload, tr_elim2> ts_e2;
+        typedef cc::TreiberStack<cds::gc::HP, Payload, tr_elim_dyn> ts_ed;
         add_stack_family<StackAdapter<ts_e1, HpHolder<ts_e1::c_nHazardPtrCount + 1>, false, true>>( "Treiber-elim1/HP", 0, 1, 2, 3, 1, 2 );
-        add_stack_family<StackAdapter<ts_e2, DhpHolder, false, true>>( "Treiber-elim2-mutex/DHP", 0, 3, 2, 3, 1, 2 );
+        add_stack_family<StackAdapter<ts_e2, DhpHolder, false, true>>( "Treiber-elim2-mutex/DHP", 0, 3, 2, 3, 1, 2, 2, 3, 1 );
         add_stack_family<StackAdapter<ts_ed, HpHolder<ts_ed::c_nHazardPtrCount + 1>, true, true>>( "Treiber-elim-dyn1/HP", 1, 3, 2, 3, 1, 2 );
     }
 #elif FAMILY == 3
     if ( vh::wants( "C09" )) {
-        typedef cc::FCStack<long> fcs;
-        typedef cc::FCStack<long, std::stack<long>, fcs_el> fcs_e;
-        typedef cc::FCStack<long, std::stack<long, std::vector<long>>, fcs_mtx> fcs_vm;
-        add_stack_family<StackAdapter<fcs, NoSmr>>( "FCStack", 0, 3, 1, 2, 1, 1, 1, 2 );
-        add_stack_family<StackAdapter<fcs_e, NoSmr, false, true>>( "FCStack-elimination", 0, 3, 1, 2, 1, 1, 1, 2 );
-        add_stack_family<StackAdapter<fcs_vm, NoSmr>>( "FCStack-vector-mutex", 0, 6, 1, 2, 1, 1, 1, 1 );
+        typedef cc::FCStack<Payload> fcs;
+        typedef cc::FCStack<Payload, std::stack<Payload>, fcs_el> fcs_e;
+        typedef cc::FCStack<Payload, std::stack<Payload, std::vector<Payload>>, fcs_mtx> fcs_vm;
+        add_stack_family<StackAdapter<fcs, NoSmr>>( "FCStack", 0, 1, 1, 2, 1, 1, 1, 2 );
+        add_stack_family<StackAdapter<fcs, NoSmr>>( "FCStack", 0, 2, 1, 2, 1, 1, 1, 2, 1 );
+        add_stack_family<StackAdapter<fcs_e, NoSmr, false, true>>( "FCStack-elimination", 0, 1, 1, 2, 1, 1, 1, 2 );
+        add_stack_family<StackAdapter<fcs_e, NoSmr, false, true>>( "FCStack-elimination", 0, 1, 1, 2, 1, 1, 1, 2, 1 );
+        add_stack_family<StackAdapter<fcs_vm, NoSmr>>( "FCStack-vector-mutex", 0, 2, 1, 2, 1, 1, 1, 1 );
     }
     else {
-        typedef cc::FCDeque<long> fcd;
-        typedef cc::FCDeque<long, std::deque<long>, fcd_el> fcd_e;
-        typedef cc::FCDeque<long, boost::container::deque<long>, fcd_mtx> fcd_bm;
-        add_deque_family<DequeAdapter<fcd>>( "FCDeque", 0, 3, 1, 2 );
-        add_deque_family<DequeAdapter<fcd_e, true>>( "FCDeque-elimination", 0, 2, 1, 2 );
+        typedef cc::FCDeque<Payload> fcd;
+        typedef cc::FCDeque<Payload, std::deque<Payload>, fcd_el> fcd_e;
+        typedef cc::FCDeque<Payload, boost::container::deque<Payload>, fcd_mtx> fcd_bm;
+        add_deque_family<DequeAdapter<fcd>>( "FCDeque", 0, 1, 1, 2 );
+        add_deque_family<DequeAdapter<fcd_e, true>>( "FCDeque-elimination", 0, 1, 1, 2 );
+        add_deque_family<DequeAdapter<fcd_e, true>>( "FCDeque-elimination", 0, 1, 1, 2, 1 );
         add_deque_family<DequeAdapter<fcd_e, true>>( "FCDeque-elimination-pass1", 1, 4, 1, 2 );
         add_deque_family<DequeAdapter<fcd_e, true>>( "FCDeque-elimination-pass2", 2, 6, 1, 2 );
         add_deque_family<DequeAdapter<fcd_bm>>( "FCDeque-boost-mutex-elim", 0, 4, 1, 2 );
